@@ -492,7 +492,8 @@ def mutate(rng, t):
                  and len(s.kv) == 1 and p and _parent_key(t, p) == "NamedCal"]
         if sites:
             p, s = rng.choice(sites)
-            nm = rng.choice(["bad", "tgt,zzz", "tgt|ldn|fed", "", "TGT", "ldn,", "nyc|", "Tgt,LDN"])
+            nm = rng.choice(["bad", "tgt,zzz", "tgt|ldn|fed", "", "TGT", "ldn,", "nyc|", "Tgt,LDN", "\u0130|tgt", "tgt,st\u212a|fed",
+                             "st\u212a,st\u212a|", "\u212a\u212a|\u0130"])
             return set_at(t, p, Obj([("name", nm)])), "calendar name %r" % nm
     if kind == "variant":
         sites = [(p, s) for p, s in objs if len(s.kv) == 1 and isinstance(s.kv[0][0], str) and s.kv[0][0] in TAGS + CONVS]
